@@ -236,6 +236,21 @@ SEval(node, env, st) ==
          IF r.sig # "ok" THEN r
          ELSE IF r.v.t # "b" THEN SFail(r.st, "type")
          ELSE SR([r.st EXCEPT !.gs = SDel(@, r.v.v), !.writes = Append(@, <<"gdel", r.v.v>>)], None)
+    [] k = "LPut" ->     \* App.localPut(account, key, value)
+         LET r == SEvalList(a, 1, env, st, <<>>) IN
+         IF r.sig # "ok" THEN r
+         ELSE IF r.v[2].t # "b" THEN SFail(r.st, "type")
+         ELSE SR([r.st EXCEPT !.ls = SPut(@, <<r.v[1], r.v[2].v>>, r.v[3]),
+                             !.writes = Append(@, <<"lput", r.v[1], r.v[2].v, r.v[3]>>)], None)
+    [] k = "LGet" ->
+         LET r == SEvalList(a, 1, env, st, <<>>) IN
+         IF r.sig # "ok" THEN r
+         ELSE IF r.v[2].t # "b" THEN SFail(r.st, "type") ELSE SR(r.st, SGet(r.st.ls, <<r.v[1], r.v[2].v>>, U0))
+    [] k = "LDel" ->
+         LET r == SEvalList(a, 1, env, st, <<>>) IN
+         IF r.sig # "ok" THEN r
+         ELSE IF r.v[2].t # "b" THEN SFail(r.st, "type")
+         ELSE SR([r.st EXCEPT !.ls = SDel(@, <<r.v[1], r.v[2].v>>), !.writes = Append(@, <<"ldel", r.v[1], r.v[2].v>>)], None)
     [] k = "MV" ->       \* a MaybeValue evaluated once; node.i[1] names it, node.s says which lookup
          LET r == SEvalList(a, 1, env, st, <<>>) IN
          IF r.sig # "ok" THEN r
